@@ -7,8 +7,9 @@ Property theorems over the outstation session model for ALL states / requests / 
 Definitions used in the statements (`Inv`, `DbContract`, `TxShape`, `SolResp`, `UnsolResp`,
 `SentOne`, `HasBits`, `Correlated`, `CbOnly`, `Good`) are in `Dnp3.Proofs.OutstationC12`; the
 statements are restated here verbatim and proved by the theorems of that file.
-Known defects (kept as exact characterisations + counterexamples): D1 (OPERATE echo overflow
-panics), D13 (SELECT / DIRECT_OPERATE echo silently truncated).  D7 (WRITE reported only the last
+Known defect (kept as an exact characterisation + counterexamples): D13 (SELECT / OPERATE / DIRECT_OPERATE
+echo silently truncated).  D1 (an OPERATE whose echo overflows panicked the task) is repaired:
+`handleControls_total`, `operate_echo_overflow_clean`.  D7 (WRITE reported only the last
 header's result) is repaired: `write_rejection_flagged` is the full statement.
 -/
 namespace Dnp3.Props.C12
@@ -240,13 +241,32 @@ theorem write_rejection_flagged_d7 (a : Acc) :
     HasBits (handleWrite a 1 [d7Hdr1, d7Hdr2]).2.iin2 iin2ParamError :=
   @Dnp3.Proofs.C12.write_rejection_flagged_d7 a
 
-/-- **D1** (characterisation): an OPERATE whose headers are all control headers panics — the
-    `unwrap` on the cursor's `WriteError` — exactly when its echo does not fit the solicited
-    transmit buffer.  (The handler callbacks of an SBO run have been made by then.) -/
-theorem operate_echo_overflow_panics (a : Acc) (seq frameId : Nat) (hs : List ObjHdr) (raw : List Nat)
-    (hall : hs.all isControlHdr = true) :
-    handleControls a 4 seq frameId hs raw = none ↔ (operateRun a seq frameId hs raw).overflow = true :=
-  @Dnp3.Proofs.C12.operate_echo_overflow_panics a seq frameId hs raw hall
+/-- the control functions always return (no `unwrap` on a `WriteError` is left: D1 repaired) -/
+theorem handleControls_total (a : Acc) (func seq frameId : Nat) (hs : List ObjHdr) (raw : List Nat) :
+    ∃ a' ro, handleControls a func seq frameId hs raw = some (a', ro) :=
+  @Dnp3.Proofs.C12.handleControls_total a func seq frameId hs raw
+
+/-- **D1 repaired** (was `operate_echo_overflow_panics`: `handleControls a 4 … = none ↔ overflow`): an OPERATE
+    whose headers are all control headers and whose echo does not fit the solicited transmit buffer is answered
+    like a SELECT / DIRECT_OPERATE in the same situation (`select_echo_overflow_clean`, D13): the truncated echo
+    (`size = 4 + out.length`), the request's sequence number and a clean IIN2; the select state is the one the
+    control run left (the session does not touch it) -/
+theorem operate_echo_overflow_clean (a : Acc) (seq frameId : Nat) (hs : List ObjHdr) (raw : List Nat)
+    (hall : hs.all isControlHdr = true)
+    (hov : (operateRun a seq frameId hs raw).overflow = true) :
+    ∃ a' r, handleControls a 4 seq frameId hs raw = some (a', some r) ∧ r.iin2 = 0 ∧ r.ctrl.seq = seq ∧
+      r.size = 4 + (operateRun a seq frameId hs raw).out.length ∧
+      a'.1.select = (ctlFinish (operateRun a seq frameId hs raw)).acc.1.select :=
+  @Dnp3.Proofs.C12.operate_echo_overflow_clean a seq frameId hs raw hall hov
+
+/-- regression instance (the former D1 counterexample): with the minimum transmit buffer (249 octets) an OPERATE carrying 62
+    g41v2 commands (echo 4 + 62·4 = 252 > 245 octets), here without a SELECT, used to panic the task; it is
+    answered with the NO_SELECT echo of 60 of the 62 objects (4 + 4 + 60·4 = 248 octets) and IIN2 = 0.
+    Evaluated; involves no database function. -/
+theorem operate_echo_truncated_d1 :
+    (handleControls (OState.init { sol := 249 } 0, []) 4 1 0 [d1Header] []).map
+        (fun p => p.2.map (fun r => (r.iin2, r.size))) = some (some (0, 248)) :=
+  @Dnp3.Proofs.C12.operate_echo_truncated_d1
 
 /-- **D13**: SELECT and DIRECT_OPERATE whose echo does not fit do not fail: they answer with the
     truncated echo (`size = 4 + out.length`) and a clean IIN2 from the handler (0), even when a
